@@ -361,6 +361,10 @@ def check_C06(tier, seed):
     # datagram receive buffer: tiny buffers, datagrams of every size relative to it, late readers
     import scen_c16
     honest += [scen_c16.overflow_script(r2, len(honest) + i) for i in range(200 if quick else 4000)]
+    # unread data on streams that are stopped and reset / finished in every order: credit comes back once
+    srs, _ = V.gen("SeqGen.tla", "SeqGen_stoprst4.cfg" if quick else "SeqGen_stoprst5.cfg", "C06s")
+    honest += [scen.stopreset_script(r2, len(honest) + i, seq=q) for i, q in enumerate(sample(srs, 700 if quick else len(srs), r2))]
+    honest += [scen.stopreset_script(r2, len(honest) + i) for i in range(200 if quick else 3000)]
     mcs = [("Credit.tla", "MC_Credit.cfg" if quick else "MC_Credit3.cfg")]
     res = generic("C06", tier, seed, mcs, scripts,
                   [("hostile", "HostileTrace.tla", "HostileTrace.cfg")],
